@@ -41,6 +41,8 @@ def bounded_permutation_sign(chk):
 
 def run(chk):
     chk.level = "proof"
+    from props import backend_conformance
+    backend_conformance.run(chk, "C07", names=('slogdet', 'lu', 'cholesky', 'prod', 'sum', 'log'))
     chk.assume("sign*exp(logabs) = det is carried by the ghost pair (sgn, ld) = (phase of det, log|det|); exp/log themselves never "
                "appear in a VC (homomorphism lemmas det_mul, det_kronecker, det_blockDiagonal, det_diagonal, det_permutation)")
     chk.assume("integral floats behave as integers under ** (Kronecker rule raises a sign to the float power prod/size)")
